@@ -535,6 +535,25 @@ pub fn run_c01(tier: &str) -> i32 {
             });
         });
     }
+    // two tags pending at the same time: names that are equal / prefix-related (an error) or merely contain one another (fine)
+    {
+        let names = ["T", "TU", "UT", "XTX", "ID", "WIDTH", "U"];
+        let b = Bench::new(&help);
+        let mut steps = BTreeSet::new();
+        for a in names {
+            for c in names {
+                for uses in [format!("{a}-{c}"), format!("{c} {a}"), format!("{a}\n{c}"), format!("x{a}{c}x")] {
+                    let text = format!("-TXTPP#tag {a}\n+TXTPP#write va\n-TXTPP#tag {c}\n+TXTPP#write vc\n{uses}\nend\n");
+                    for crlf in [false, true] {
+                        let src = if crlf { text.replace('\n', "\r\n").into_bytes() } else { text.clone().into_bytes() };
+                        if c01_case(&rep, &b, &src, true, 9, &mut steps) {
+                            rep.add("tag_pair_cases", 1);
+                        }
+                    }
+                }
+            }
+        }
+    }
     crate::eproj::run_into(&rep);
     rep.finish()
 }
